@@ -389,6 +389,7 @@ def c01_toy_verify_recover(opts):
         # selective on this curve (harness sanity: each (z,r,s) valid for exactly the keys of 0..2 nonce points)
     t.exhaustive = True
     res = t.result()
+    res["violation_counts"] = dict(v.count)
     res["notes"] = notes
     return res
 
@@ -481,6 +482,7 @@ def c01_toy_sign(opts):
                     check_verify(v, G, rc, Q, z2, r, s, src, " [other hash]")
     t.exhaustive = False
     res = t.result()
+    res["violation_counts"] = dict(v.count)
     res["first_nonce_unusable_cases"] = retried
     res["curves"] = [(c[0], c[1], c[2], c[4]) for c in chosen]
     return res
@@ -630,6 +632,7 @@ def c01_production_sign(opts):
                     v("key-der-wrapper-wrong", why, (d, z), krepro)
     t.exhaustive = False
     res = t.result()
+    res["violation_counts"] = dict(v.count)
     res["libsecp256k1_loaded"] = False
     return res
 
@@ -755,6 +758,7 @@ def c01_production_verify_adversarial(opts):
                         notes[nk].append((name, cname, hex(r), hex(s)))
     t.exhaustive = False
     res = t.result()
+    res["violation_counts"] = dict(v.count)
     res["notes"] = notes
     res["libsecp256k1_loaded"] = False
     return res
